@@ -1,7 +1,7 @@
 //! C07 — versioned reads are stable, duplicate-free and respect deletion.
 //!
 //! Histories of create / set / remove property / version bump (begin+commit of a transaction) /
-//! delete over <=3 nodes (+ one relationship for the recorded log defect). After every operation
+//! delete over <=3 nodes (+ fixed relationship regressions; relationship reads at volume are in c08). After every operation
 //! every (node, version <= current+1) read, all_nodes ids, node_count and `MATCH (n) RETURN count(n)`
 //! are observed; each read at a version older than the current one is re-checked against all its
 //! earlier observations (the property's own predicate), and the dump is compared with the Gallina
@@ -222,7 +222,7 @@ fn run_case(out: &mut Out, engine: &QueryEngine, ops: &[Op]) {
     }
 }
 
-/// Replay the stored witnesses of the two recorded defects on the implementation.
+/// Replay the stored witness of the recorded defect on the implementation.
 fn replay_known(out: &mut Out) {
     // 1. the past of a deleted node
     let mut s = GraphStore::new();
@@ -238,27 +238,48 @@ fn replay_known(out: &mut Out) {
         still_fails: before != after,
         detail: format!("create node, set k0=5 at v1, commit (v2), delete: read at v1 was {:?}, is {:?}", before, after),
     });
-    // 2. relationship log holds post-images only
+}
+
+/// The relationship-log defect that used to be recorded (no pre-image before the first update,
+/// no creation version) is repaired: its witnesses are now ordinary checks. Relationship reads
+/// of the past are covered at volume by c08 (same store model, Mvcc.v).
+fn edge_regressions(out: &mut Out) {
+    let rd = |s: &GraphStore, e: EdgeId, v: u64| -> Option<Vec<(String, String)>> {
+        s.get_edge_at_version(e, v).map(|x| {
+            let mut p: Vec<(String, String)> = x.properties.iter().map(|(k, v)| (k.clone(), format!("{:?}", v))).collect();
+            p.sort();
+            p
+        })
+    };
+    // created at v1, first update at v2: the read at v1 keeps the as-created properties
     let mut s = GraphStore::new();
     let a = s.create_node("L");
     let b = s.create_node("L");
     let e = s.create_edge(a, b, "T").unwrap();
     let t = s.begin_transaction(IsolationLevel::SnapshotIsolation);
     s.commit_transaction(t).unwrap();
-    let rd = |s: &GraphStore, e: EdgeId| -> Vec<(String, String)> {
-        let mut v: Vec<(String, String)> =
-            s.get_edge_at_version(e, 1).map(|x| x.properties.iter().map(|(k, v)| (k.clone(), format!("{:?}", v))).collect()).unwrap_or_default();
-        v.sort();
-        v
-    };
-    let before = rd(&s, e);
+    let before = rd(&s, e, 1);
     s.set_edge_property(e, "k0", 5i64).unwrap();
-    let after = rd(&s, e);
-    out.known.push(KnownReplay {
-        class: "edge-read-before-first-update".to_string(),
-        still_fails: before != after,
-        detail: format!("create relationship at v1, commit (v2), set k0=5: read at v1 was {:?}, is {:?}", before, after),
-    });
+    let after = rd(&s, e, 1);
+    if before != after || before != Some(vec![]) {
+        out.fail(0, "relationship created at v1, commit (v2), set k0=5", &format!("get_edge_at_version(e, 1) was {:?}, is {:?}", before, after), None);
+    }
+    // created at v2: unreadable at v1 before and after creation and after its first update
+    let e2_before = rd(&s, EdgeId::new(e.as_u64() + 1), 1);
+    let e2 = s.create_edge(b, a, "T").unwrap();
+    let at1 = rd(&s, e2, 1);
+    let t = s.begin_transaction(IsolationLevel::SnapshotIsolation);
+    s.commit_transaction(t).unwrap();
+    let at2 = rd(&s, e2, 2);
+    s.set_edge_property(e2, "k1", 7i64).unwrap();
+    if e2_before.is_some() || at1.is_some() || rd(&s, e2, 1).is_some() || at2 != Some(vec![]) || rd(&s, e2, 2) != at2 {
+        out.fail(
+            0,
+            "relationship created at v2, commit (v3), set k1=7",
+            &format!("reads at v1: {:?} / {:?} / {:?}; at v2: {:?} then {:?}", e2_before, at1, rd(&s, e2, 1), at2, rd(&s, e2, 2)),
+            None,
+        );
+    }
 }
 
 fn main() {
@@ -321,5 +342,6 @@ fn main() {
         run_case(&mut out, &engine, &ops);
     }
     replay_known(&mut out);
+    edge_regressions(&mut out);
     out.finish();
 }
